@@ -46,6 +46,7 @@ def run_pair(case, ctx=None, crosscheck=0):
         points, images = cr.snapshot_run(prep, cr.MUTATING_KINDS, 'kill')
         desc = prep.describe()
         labels.append(f'op:{desc["op"]}')
+        labels += [f'warm-up:{cr.WARM_UPS[p % 8]}' for p in desc.get('prelude', [])]
         labels.append('pair-exhaustive')
         for k, variant, folder in images:
             context = (
